@@ -3,6 +3,7 @@ package mutkit
 import (
 	"crypto/sha256"
 	"fmt"
+	"runtime/debug"
 	"sort"
 	"strings"
 
@@ -12,6 +13,11 @@ import (
 	"verif/kit"
 	wk "verif/worldkit"
 )
+
+func init() {
+	// short-lived garbage only (a fresh world per transition): collect rarely
+	debug.SetGCPercent(800)
+}
 
 type Hash [16]byte
 
@@ -103,22 +109,6 @@ func sortedIDs[V any](m map[b6.FeatureID]V) []b6.FeatureID {
 	return out
 }
 
-// renderTree renders an AVL list exactly: shape, balances, values. The value
-// of a posting list node is the feature's ID plus whether the node holds the
-// very object stored in the features map (else the stale object's content).
-func renderTree(b *strings.Builder, n *search.VerifTreeNode, val func(search.Value) string) {
-	if n == nil {
-		b.WriteByte('.')
-		return
-	}
-	_, l, r, v, bal := n.VerifFields()
-	b.WriteByte('(')
-	renderTree(b, l, val)
-	fmt.Fprintf(b, " %s/%d ", val(v), bal)
-	renderTree(b, r, val)
-	b.WriteByte(')')
-}
-
 func inorder(n *search.VerifTreeNode, f func(v search.Value)) {
 	if n == nil {
 		return
@@ -129,11 +119,15 @@ func inorder(n *search.VerifTreeNode, f func(v search.Value)) {
 	inorder(r, f)
 }
 
-// IndexString renders the mutable index: every token in tree order with its
-// exact posting tree. withObjects adds object identity / stale contents.
+// indexString renders the mutable index: every token in tree order (tokens are
+// never removed, so empty posting lists are state too) with the contents of its
+// posting list in list order. withObjects adds object identity: whether a node
+// holds the very object stored in the features map, else the stale object's
+// content. Not rendered: AVL shapes and balances (C07 checks the trees
+// themselves) and treeList.length, which drifts without bound (the first Insert
+// into an empty list is not counted) and only feeds EstimateLength.
 func indexString(index *search.TreeIndex, features map[b6.FeatureID]ingest.Feature, withObjects bool) string {
 	var b strings.Builder
-	lists := index.VerifLists()
 	val := func(v search.Value) string {
 		f, ok := v.(ingest.Feature)
 		if !ok {
@@ -149,14 +143,10 @@ func indexString(index *search.TreeIndex, features map[b6.FeatureID]ingest.Featu
 		}
 		return s
 	}
-	fmt.Fprintf(&b, "tokens=%d ", lists.VerifLength())
-	var shape strings.Builder
-	renderTree(&shape, lists.VerifRoot(), func(v search.Value) string { t, _ := search.VerifTreeEntry(v); return t })
-	b.WriteString(shape.String())
-	inorder(lists.VerifRoot(), func(v search.Value) {
+	inorder(index.VerifLists().VerifRoot(), func(v search.Value) {
 		tok, list := search.VerifTreeEntry(v)
-		fmt.Fprintf(&b, "\n %s len=%d ", tok, list.VerifLength())
-		renderTree(&b, list.VerifRoot(), val)
+		b.WriteString("\n " + tok + ":")
+		inorder(list.VerifRoot(), func(v search.Value) { b.WriteString(" " + val(v)) })
 	})
 	return b.String()
 }
@@ -164,8 +154,7 @@ func indexString(index *search.TreeIndex, features map[b6.FeatureID]ingest.Featu
 // PrivateKey renders ALL state the overlay holds: the features map (concrete
 // types, tags in slice order, with value kinds), the ModifiedTags map incl.
 // deleted markers, the references map (slice order, path indices) and the
-// index (token tree and every posting tree: shape, balances, lengths, object
-// identity). Go maps are rendered sorted (their order is unobservable). The
+// index (every token with its posting list contents and object identity). Go maps are rendered sorted (their order is unobservable). The
 // epoch counter is omitted: it is only compared with the epoch captured by a
 // live iterator, and no iterator is alive across operations.
 func PrivateKey(w *ingest.MutableOverlayWorld) string {
